@@ -27,6 +27,10 @@ type Entry struct {
 	// the first was recovered: its Recovered flag is known only if the value of the
 	// panic is unique in the program.
 	Collapsed bool `json:"collapsed,omitempty"`
+	// RecUnknown: the entry is one of the panics hidden behind a "[recovered,
+	// repanicked]" line (the runtime prints neither their text again nor their
+	// flags): its Recovered flag is not known.
+	RecUnknown bool `json:"rec_unknown,omitempty"`
 }
 
 // Expected is the observable behaviour of one program under gc.
@@ -36,11 +40,16 @@ type Expected struct {
 	Idx     int      `json:"idx"`     // argument of Stop / Fatal
 	Chain   []Entry  `json:"chain"`   // oldest panic first (the order of the crash header)
 	LinesOK bool     `json:"lines_ok"`
+	// Approx: the header has more than one "[recovered, repanicked]" line, so the
+	// number of panics behind each of them is not known: only the newest panic (last
+	// entry) and its line are reliable.
+	Approx bool `json:"approx,omitempty"`
 }
 
-// ParseHeader parses the crash header of the gc runtime. "X [recovered, repanicked]"
-// (go1.23+: two adjacent panics with the identical value) is expanded into the two
-// panics it stands for; the first is marked Collapsed.
+// ParseHeader parses the crash header of the gc runtime, one entry per line. A line
+// "X [recovered, repanicked]" (go1.23+) stands for two or more adjacent panics with the
+// identical value, of which only the first is printed; it is marked Collapsed and is
+// expanded by Interpret, which knows the number of panics from the traceback.
 func ParseHeader(stderr string) ([]Entry, bool) {
 	lines := strings.Split(stderr, "\n")
 	var chain []Entry
@@ -63,7 +72,7 @@ func ParseHeader(stderr string) ([]Entry, bool) {
 		switch {
 		case strings.HasSuffix(text, " [recovered, repanicked]"):
 			t := strings.TrimSuffix(text, " [recovered, repanicked]")
-			chain = append(chain, Entry{Text: t, Recovered: true, Collapsed: true}, Entry{Text: t})
+			chain = append(chain, Entry{Text: t, Recovered: true, Collapsed: true})
 		case strings.HasSuffix(text, " [recovered]"):
 			chain = append(chain, Entry{Text: strings.TrimSuffix(text, " [recovered]"), Recovered: true})
 		default:
@@ -71,6 +80,38 @@ func ParseHeader(stderr string) ([]Entry, bool) {
 		}
 	}
 	return chain, len(chain) > 0
+}
+
+// Expand replaces every Collapsed header line by the panics it stands for. n is the
+// number of panics on the stack (from the traceback). With one collapsed line its
+// multiplicity is n minus the other lines; with several, each is expanded to two
+// panics and approx is reported.
+func Expand(header []Entry, n int) (chain []Entry, approx bool) {
+	collapsed := 0
+	for _, h := range header {
+		if h.Collapsed {
+			collapsed++
+		}
+	}
+	mult := 2
+	if collapsed == 1 {
+		if m := n - (len(header) - 1); m >= 2 {
+			mult = m
+		} else {
+			approx = true
+		}
+	} else if collapsed > 1 {
+		approx = true
+	}
+	for _, h := range header {
+		chain = append(chain, h)
+		if h.Collapsed {
+			for i := 1; i < mult; i++ {
+				chain = append(chain, Entry{Text: h.Text, RecUnknown: true})
+			}
+		}
+	}
+	return chain, approx
 }
 
 var fileLine = regexp.MustCompile(`^\t(.+):(\d+)( \+0x[0-9a-f]+)?$`)
@@ -200,13 +241,16 @@ func Interpret(stdout, stderr string, exitOK bool, progFile string) (Expected, e
 			return e, fmt.Errorf("gc reference: cannot parse the crash header:\n%s", stderr)
 		}
 		e.Outcome = "panic"
-		e.Chain = chain
 		lines := PanicLines(stderr, progFile)
-		if len(lines) == len(chain) {
+		e.Chain, e.Approx = Expand(chain, len(lines))
+		if len(lines) == len(e.Chain) && !e.Approx {
 			e.LinesOK = true
-			for k := range chain {
+			for k := range e.Chain {
 				e.Chain[k].Line = lines[len(lines)-1-k]
 			}
+		} else if len(lines) > 0 && len(e.Chain) > 0 {
+			// the newest panic is the first frame of the traceback
+			e.Chain[len(e.Chain)-1].Line = lines[0]
 		}
 	default:
 		return e, fmt.Errorf("gc reference: unexpected end of output %q", last)
